@@ -54,6 +54,11 @@ const (
 	FRat
 	// FOpaque: havoc'ed result; T is a fresh FP variable used only for identity.
 	FOpaque
+	// FAffine: the double is within 2^-18 of the real number T + K, where T is a signed 64-bit
+	// integer term (|T| < 2^Bits <= 2^40) and K a concrete constant (|K| < 2^20), obtained by at
+	// most 8 additions/subtractions. Comparisons are decided exactly when the two sides cannot tie
+	// (fractional distance > 2^-12), otherwise the path is a domain exit (DESIGN.md D3).
+	FAffine
 )
 
 // SymFloat is a symbolic float64 in one of the representations of DESIGN.md section 3.
@@ -62,6 +67,8 @@ type SymFloat struct {
 	T    *smt.Term
 	Den  *smt.Term
 	Bits int
+	K    float64 // FAffine only
+	Ops  int     // FAffine only
 }
 
 // SymString is a string of concrete length whose bytes may be symbolic (uint8 or SymInt of kind Uint8).
